@@ -65,7 +65,7 @@ def one_run(sys_seed, np_seed, niter, opts, kind, tmp):
 def run(ctx: Ctx):
     import_amisc()
     rng = ctx.rng
-    tmp = WORK / 'c19_tmp'
+    tmp = WORK / f'c19_tmp_{os.getpid()}'
     shutil.rmtree(tmp, ignore_errors=True)
     tmp.mkdir(parents=True, exist_ok=True)
     ctx.rule = ('for each system (feed-forward chains with module-level models, and a feedback loop) and numpy seed: one run of fit() without any '
